@@ -7,7 +7,7 @@ TECH = "deterministic simulation with fault injection"
 
 CHECKS = {
  "C02": dict(cat="exploration", ref="5 C02",
-   text="generated histories (register, duplicate, liveness flips, time, sweep) over 2-5 clients whose phantoms collide, with connects that are genuine flights or near misses (other phantom, other transport / prefix id / obfs4 handshake with the same secret, rejected or swept registration, flipped tag bits, truncation, random) through the real station; a reference registry decides must-reject / must-match and the dial seam attributes a match to one registration by its unique covert address",
+   text="generated histories (register, duplicate, liveness flips, time, sweep) over 2-5 clients whose phantoms collide, with connects that are genuine flights or near misses (other phantom, other transport / prefix id / obfs4 handshake with the same secret, rejected or swept registration, flipped tag bits, truncation, random; a duplicate that names another prefix id; a genuine flight arriving after the registration expired and was swept while the connection was already open) through the real station; a reference registry decides must-reject / must-match and the dial seam attributes a match to one registration by its unique covert address",
    note="trusted: reference registry model, simnet, synctest clock; expired-not-yet-swept and re-registration after rejection are don't-cares; byte-stream space is sampled",
    tech=TECH + " (history generation through the real station, reference model, dial-seam attribution)"),
  "C03": dict(cat="exploration", ref="5 C03",
@@ -23,7 +23,7 @@ CHECKS = {
    note="trusted: simnet's model of TCP errors (OpError/SyscallError shapes), the synctest fake clock, the seamgen overlay; interleavings are sampled, not enumerated",
    tech=TECH + " (fault enumeration + seeded schedule search over parked I/O operations)"),
  "C06": dict(cat="exploration", ref="5 C06",
-   text="generated policies (blocklists, allowlists, domain patterns), replaced by configuration reloads between registrations, x covert strings from a grammar of textual address forms x scripted resolver answers that change between lookups; every registration goes through the real ingest pipeline and is followed by a genuine connection through the real station; an independent net/netip evaluator judges each string that reaches the dial seam (literal, non-empty host, permitted, not a blocked domain, resolved exactly once at admission, dialled = checked, permitted well-formed literal accepted unchanged)",
+   text="generated policies (blocklists, allowlists, domain patterns), replaced by configuration reloads between registrations, x covert strings from a grammar of textual address forms x scripted resolver answers that change between lookups; every registration goes through the real ingest pipeline and is followed by a genuine connection through the real station; refused sessions retry and admitted sessions re-register later with another covert string; an independent net/netip evaluator judges each string that reaches the dial seam (literal, non-empty host, permitted, not a blocked domain, resolved exactly once at admission, dialled = checked, permitted well-formed literal accepted unchanged)",
    note="trusted: the independent evaluator; literals and the empty host are resolved by the real net.ResolveIPAddr (no DNS), names by the scripted resolver; the textual address space is sampled, not enumerated; policy as of admission time",
    tech=TECH + " (scripted faulty resolver as third party, admission->dial history through the real station, independent oracle at the dial seam)"),
  "C07": dict(cat="exploration", ref="5 C07",
@@ -48,19 +48,19 @@ CHECKS = {
    tech=TECH + " (fault enumeration over I/O call sites x error shapes with log capture)"),
  "C18": dict(cat="exploration", ref="5 C18",
    text="all 5-operation histories (thorough: 12) over {query x3 addresses, flip host, advance past either lifetime, ClearExpiredCache} for map and LRU x {both, live only, non-live only} x capacities 0..2 are enumerated and long random histories with independently generated Config fields sampled, under the simulated clock with a scripted probe; concurrent part: every schedule with <= 3 preemptions for 8 small scenarios at the package's lock operations and probes, plus random ones; oracle: measurement-history model (no stale / flipped / unmeasured cached answer), LRU recency model (evicted entries not served), capacity bound at every quiescent point, probe called once",
-   note="trusted: measurement-history and recency models; golang-lru is not instrumented (its eviction callback runs after the library releases its own lock at the pinned version - checked at start-up, with a suppress path otherwise); ages within 1 ms above a lifetime are don't-cares; cache hits are never demanded; an auxiliary free-running stress run under the race detector (capacity oracle at quiescent ends, statistical) covers switches inside critical sections, which the lock-level scheduler does not produce",
+   note="trusted: measurement-history and recency models; golang-lru is not instrumented (its eviction callback runs after the library releases its own lock at the pinned version - checked at start-up, with a suppress path otherwise); an age of exactly the lifetime is judged (must be measured again), ages strictly between the lifetime and lifetime + 1 ms are don't-cares; cache hits are never demanded; an auxiliary free-running stress run under the race detector (capacity oracle at quiescent ends, statistical) covers switches inside critical sections, which the lock-level scheduler does not produce",
    tech=TECH + " (simulated clock, history enumeration, lock-level scheduler with bounded-preemption enumeration, reference models)"),
  "C19": dict(cat="exploration", ref="5 C19",
    text="generated TOML configurations (every optional key set / unset / zero / malformed, list entries incl. malformed CIDRs and regular expressions, the shipped app_config.toml verbatim) and subnet files through the real ParseConfig / NewRegistrationManager / liveness New; for accepted ones: three epochs of every stats module's PrintAndReset with and without traffic, a sweep, and reload sequences of length <= 4 mixing valid, malformed and unreadable files; oracles: no panic, every list entry enforced (dropped entries detected by probing the intended range), reload differential against a fresh manager (failed part unchanged, successful part replaced); single reloads and one-key alternatives on the shipped config are enumerated; the scenario runs as one scheduler task (leaked locks are deadlock verdicts), station goroutine panics are verdicts, client library versions vary in traffic, the GeoIP database must be usable after every reload; a quarter of the registrations is still in flight in the ingest workers while the statistics printers run (lock operations of both are scheduling points); list pools contain bare IPv4 and IPv6 addresses",
    note="the SIGHUP glue of cmd/application/main.go is re-implemented in 7 harness lines; connManager's stats module and GeoIP databases are not exercised; a panic or exit during the INITIAL load counts as a failed load",
    tech=TECH + " (reload / file-fault sequences under the simulated clock, differential probes, panic monitor)"),
  "C20": dict(cat="fault_enumeration", ref="5 C20", engine="ptracefi",
-   text="a real child process built from the current pkg/client/assets performs seeded store sequences under ptrace; for a fixed set of sequences every file-system syscall stop point is enumerated with kill-at-entry, kill-at-exit, torn write + kill, each errno and short write; the directory is then loaded by a fresh process and compared byte-for-byte with the old/new configuration, and the in-memory rollback is checked",
+   text="a real child process built from the current pkg/client/assets performs seeded store sequences under ptrace; for a fixed set of sequences every file-system syscall stop point is enumerated with kill-at-entry, kill-at-exit, torn write + kill, each errno and short write; the directory is then loaded by a fresh process and compared byte-for-byte with the old/new configuration, and the in-memory rollback is checked; store children of sequences with an odd parameter seed initialise the singleton from another directory and then switch to the directory under test",
    note="trusted: the ptrace tracer's syscall classification (x86-64), determinism of the child's file-system syscall sequence (verified per sequence by three reference runs); power loss / page-cache durability is not modelled (the property speaks of process crash, kill or write failure)",
    tech=TECH + " (crash-point and syscall-error enumeration on a real process via ptrace)"),
  "C09": dict(cat="exploration", ref="5 C09",
-   text="lock-level scheduler over pkg/station/lib: every lock operation, liveness probe and resolver lookup is a scheduling point; every schedule with <= 2 preemptions is enumerated for three small scenarios (duplicate ingest, same identifier with acceptable + forbidden covert, ingest vs sweep vs lookup) and seven scenarios (plus overload, shutdown with idle / busy input, reload) are sampled; oracles: one New per lifetime, visibility only after the registration's own admission, no lost regCount update, map bijection, no panic, deadlock from the wait-for graph, dropped == offered - accepted with a non-blocking distributor, bounded shutdown, porcupine linearizability of ingest histories; the data-race clause is covered by an auxiliary -race run (400 iterations in the quick tier, 3200 in the thorough tier); scheduling points also right after every release; stop requests during pool start-up and with registrations queued behind a large pool; panics of pipeline goroutines are verdicts; auxiliary race run over roomy and four-address phantom subnets",
-   note="code between two lock operations runs atomically; third-party code is not instrumented; the auxiliary race run is statistical and outside the deterministic core (reported separately in the evidence); one known finding (unsynchronised OnReload)",
+   text="lock-level scheduler over pkg/station/lib: every lock operation, liveness probe and resolver lookup is a scheduling point; every schedule with <= 2 preemptions is enumerated for three small scenarios (duplicate ingest, same identifier with acceptable + forbidden covert, ingest vs sweep vs lookup) and seven scenarios (plus overload, shutdown with idle / busy input, reload) are sampled; oracles: one New per lifetime, visibility only after the registration's own admission, no lost regCount update, map bijection, no panic, deadlock from the wait-for graph, dropped == offered - accepted with a non-blocking distributor, bounded shutdown, porcupine linearizability of ingest histories; the data-race clause is covered by an auxiliary -race run (400 iterations in the quick tier, 3200 in the thorough tier); scheduling points also right after every release; stop requests during pool start-up and with registrations queued behind a large pool; panics of pipeline goroutines are verdicts; auxiliary race run over roomy and four-address phantom subnets, half of its iterations with microsecond lifetimes so that the sweeper expires registrations beside the workers; an Update published before the New of the same registration is a lost update; reloads that switch between blocklist and allowlist with a covert both policies refuse (must not be admitted under any interleaving)",
+   note="code between two lock operations runs atomically; third-party code is not instrumented; the auxiliary race run is statistical and outside the deterministic core (reported separately in the evidence); no known finding left (the unsynchronised OnReload was repaired in c8c3e7f)",
    tech=TECH + " (lock-level cooperative scheduler with emulated RWMutex, bounded-preemption enumeration + seeded search, porcupine; auxiliary race-detector stress)"),
  "C10": dict(cat="exploration", ref="5 C10",
    text="admitted registrations over every transport, both families, registrant forms (IPv4, 16-byte v4-mapped, IPv6, absent) and registrar overrides are driven through the real station; the real sendToDetector / clearDetector publish through a real go-redis client over a simulated connection into a RESP stub feeding a Go port of the detector's acceptance rules and session table; every payload must be accepted, describe its registration, request 10 min / 6 h; what the station would still match must be live in the model at every checked instant; Cleanup must empty the table; repeats of registrations, a UDP stand-in transport with old client library versions, a stop request while a worker is probing (main()-like stop sequence), a post-sweep clause (what the station still tracks must be live in the detector), a station crash is a verdict",
